@@ -73,6 +73,10 @@ def cases(tier, seed):
             for sig in (1e5, 1e7) if tier == "quick" else (1e3, 1e5, 1e6, 1e7):
                 out.append({"kind": "stagnation", "cls": "stagnation", "n": n, "sig": sig, "rank": 1 + (rep + n) % 2, "idx": idx, "seed": seed})
                 idx += 1
+    for (n_, c2) in ([(34, "cyclic_shift"), (36, "generic"), (17, "cyclic_shift"), (20, "generic")] if tier == "quick" else
+                     [(34, "cyclic_shift"), (36, "generic"), (17, "cyclic_shift"), (20, "generic"), (66, "cyclic_shift"), (40, "generic"), (33, "generic"), (48, "cyclic_shift")]):
+        out.append({"kind": "large", "cls": "large", "cls2": c2, "n": n_, "idx": idx, "seed": seed})
+        idx += 1
     for n in (1, 2, 4) if tier == "quick" else (1, 2, 3, 4, 6, 8):
         out.append({"kind": "lu_failpoint", "cls": "lu_failpoint", "n": n, "idx": idx, "seed": seed})
         idx += 1
@@ -371,6 +375,43 @@ def _stagnation(spec, ctx, R):
         judge_solve(ctx, A, b, x, inf, tol=tol, cap=None, prec=prec, kappa=kappa, site=site, tags=tags)
 
 
+def _large(spec, ctx, R):
+    """Systems larger than any plausible fixed workspace (32, 64): the Krylov space has to grow to the full dimension.  The weighted
+    cyclic shift with right-hand side e_1 is the classical worst case - no residual reduction at all before cycle n."""
+    n, cls = spec["n"], spec["cls2"]
+    rng = gen.rng_for(spec["seed"], "c04large", spec["idx"])
+    if cls == "cyclic_shift":
+        c = np.zeros((n, n, 4))
+        u = refq.fa(refq.unit_quats(rng, n))
+        for i in range(n):
+            c[(i + 1) % n, i] = u[i]
+        A = refq.qa(c)
+        e = np.zeros((n, 1, 4)); e[0, 0, 0] = 1.0
+        b = refq.qa(e)
+    else:
+        A, _ = make_matrix(rng, "generic", n)
+        b = refq.randq(rng, n, 1)
+    kappa = embed.cond(A)
+    floor = 1e3 * n * EPS * kappa
+    tags = ["large_" + cls, "rhs:generic"]
+    ctx.distinct("large", A, b)
+    ctx.hit("size:large_system")
+    tol = 1e-8
+    site = "solve[none]:large"
+    try:
+        x, inf = solve(R, A, b, tol=tol)
+    except Exception as e:
+        ctx.check("M5_solves_within_n_cycles", False, site=site, tags=tags, detail={"exception": repr(e)[:200], "n": n})
+        return
+    r = judge_solve(ctx, A, b, x, inf, tol=tol, cap=None, prec=None, kappa=kappa, site=site, tags=tags)
+    if r is None:
+        return
+    ctx.check("M5_solves_within_n_cycles", r, max(tol * (1 + 1e-6), floor) + floor, site=site, tags=tags,
+              detail={"true_residual": r, "tol": tol, "iterations": inf.get("iterations"), "n": n, "converged": bool(inf.get("converged"))})
+    xo = embed.solve(A, b)
+    ctx.check("M6_same_solution", refq.fro(x - xo) / max(refq.fro(xo), 1e-300), kappa * (max(tol, floor) + floor) * 1.01, site=site + ":vs_oracle", tags=tags)
+
+
 def _zero_rhs(ctx, R, A, b, tags):
     n = A.shape[0]
     for prec in (None, "left_lu"):
@@ -466,7 +507,7 @@ def _lu_failpoint(spec, ctx, R):
 
 
 def run_case(spec, ctx, R):
-    {"system": _system, "scaling": _scaling, "stagnation": _stagnation, "lu_failpoint": _lu_failpoint}[spec["kind"]](spec, ctx, R)
+    {"system": _system, "scaling": _scaling, "stagnation": _stagnation, "large": _large, "lu_failpoint": _lu_failpoint}[spec["kind"]](spec, ctx, R)
 
 
 # --------------------------------------------------------------------------------------
